@@ -35,7 +35,7 @@ PROVED = {
  'C06': ('Theorems C06_encode_refines_spec / C06_avp_refines_spec / C06_encode_writer: the Model encoder (placeholders back-patched through write_bytes_at) emits '
          'exactly p ++ s_encode v behind any prefix p when the value fits its length fields, and panics otherwise; s_encode is the layout stated once, declaratively.'),
  'C07': ('Theorems C07_lengths_exact (independent walker walk_ok over the emitted octets), C07_avp_length_field, C07_get_length, C07_oversize_avp, C07_oversize_msg. '
-         'The hide() assertion clause is proved with the hiding development (C12) and is covered here differentially until then.'),
+         'C07_hide_asserts.'),
  'C08': ('Theorems C08_suffix / C08_accepted_suffix (octets after the declared end change nothing but the remaining input, for every accepted control message and data '
          'message with a length field), C08_ctrl_consumes_declared, C08_avps_concat / C08_avps_records (well-delimited records decode independently). On the Spec, '
          'transported by C05. C08_back_to_back / C08_sequence: encoder-produced framed messages packed back to back decode one after another.'),
@@ -51,6 +51,12 @@ PROVED = {
          'emitted, for every wf_ctrl / wf_avp value: all 39 kinds and Hidden), C03_payload_roundtrip, C03_record_roundtrip (on the Spec).'),
  'C04': ('Theorems C04_data_roundtrip (for every option set) and C04_data_roundtrip_spec over wf_data: 16 flag combinations, length absent or exact, offset n <= |data|-1; the decoded '
          'value reports no offset and the payload without its first n octets.'),
+ 'C11': ('Theorems C11_hide_reveal, C11_wire, C11_identity_on_other_variant for every hash with a 16-octet result, and their MD5 instances (Base/Md5.v): '
+         'the Model hide() then reveal() (and hide -> encode -> decode -> reveal) return the original AVP for every wf_avp value, secret, random vector and padding.'),
+ 'C12': ('Theorems C12_hide_is_rfc / C12_reveal_is_rfc (the in-place index loops of the Model equal the RFC 2661 4.3 block recursion of Spec/SpecHide.v, by loop invariants over the '
+         'forward and the reverse loop), C12_hidden_length, C12_wire_form, C12_unused_padding_inert; MD5 instances. The md5 crate itself is modelled by Base/Md5.v '
+         '(RFC 1321 suite proved as Examples) and tied differentially (MD5 channel + a third computation with hashlib).'),
+ 'C13': ('Theorems C13_reveal_total (Val always; an Ok result has the announced attribute type and is not hidden), C13_rejects; MD5 instance. No Panic / UB for any octets, secret, random vector.'),
 }
 for pid, txt in PROVED.items():
     META[pid] = P('proof', txt, 'DESIGN.md section 7 (%s)' % pid, PROOF_TECH, CORR)
